@@ -371,9 +371,10 @@ func Check(r *ev.Run, replay string) {
 	partA(r, nA, nX)
 	t1 := time.Now()
 	partB(r, depth)
+	partR(r)
 	r.Set("part_a_wall_s", int(t1.Sub(t0).Seconds()))
 	r.Set("part_b_wall_s", int(time.Since(t1).Seconds()))
-	r.Set("rule", fmt.Sprintf("A: %d import spellings x every path text with <= %d segments over the 9-segment alphabet (x leading/trailing '/') and <= %d segments over the 17-segment extended alphabet x {FSImporter strict fs, FSImporter naive fs, LocalImporter on disk}; B: explicit-state search over every sequence of <= %d import statements from a %d-letter alphabet (14 import statements + one mutation between imports) on the module tree {a->b, d/c->b, b, d/b, e->b (fails)} x {FSImporter, LocalImporter}, each sequence checked against the reference model with probes after every mutation through every alias. distinct = distinct (part, importer, spelling, outcome class, modules run) tuples for A and distinct (model state, run counts) for B", len(spellings), nA, nX, depth, len(letters)))
+	r.Set("rule", fmt.Sprintf("A: %d import spellings x every path text with <= %d segments over the 9-segment alphabet (x leading/trailing '/') and <= %d segments over the 17-segment extended alphabet x {FSImporter strict fs, FSImporter naive fs, LocalImporter on disk}; B: explicit-state search over every sequence of <= %d import statements from a %d-letter alphabet (14 import statements + one mutation between imports) on the module tree {a->b, d/c->b, b, d/b, e->b (fails)} x {FSImporter, LocalImporter}, each sequence checked against the reference model with probes after every mutation through every alias; R: a LocalImporter configured with a relative root (5 spellings) x the working directory moved afterwards to 5 places by the host or by the script (os.chdir) x 3 import statements: the module under the configured root, or an error. distinct = distinct (part, importer, spelling, outcome class, modules run) tuples for A and distinct (model state, run counts) for B", len(spellings), nA, nX, depth, len(letters)))
 }
 
 // ---------------------------------------------------------------- part A
